@@ -217,6 +217,8 @@ func Concretise(e tr.Event, sid string, nm Names) []byte {
 		return []byte(`{"foo":1}` + "\n")
 	case "msg":
 		return []byte(`{"id":"m1","to":"x@example.com","type":"text/plain","content":"hello"}` + "\n")
+	case "hybrid": // a message that also carries a state member
+		return []byte(`{"to":"x@example.com","type":"text/plain","content":"hello","state":"new"}` + "\n")
 	case "not":
 		return []byte(`{"id":"m1","event":"received"}` + "\n")
 	case "req":
